@@ -156,6 +156,11 @@ def spec_getitem(ex, ctx, outcome):
         if lookup_failed:
             ex.prove('C14:%s:missing-key-or-index-is-ParserError' % n, ['C14', 'C16', 'C07'],
                      L.exc_is_sub(outcome[1], PE))
+        # ... and only then: a key that is present / a position in range is read, whatever is stored there (None too)
+        ex.prove('C14:%s:a-present-key-or-position-never-fails' % n, ['C14', 'C07'],
+                 z3.Not(z3.Or(z3.And(L.is_Dict(c), h0.dhas(dr, kc)),
+                              # (a Decimal position may fail in its own conversion: NaN, Infinity)
+                              z3.And(L.is_List(c), z3.Or(L.is_Int(k), L.is_Bool(k)), in_range))))
 
 
 def F_hashable(v):
